@@ -10,6 +10,7 @@ import DateutilVerif.Proofs.RenderGenB
 import DateutilVerif.Proofs.RenderGenC
 import DateutilVerif.Proofs.RenderGenD
 import DateutilVerif.Proofs.RenderGenE
+import DateutilVerif.Proofs.RenderGenG
 import DateutilVerif.Proofs.RenderCompactFrac
 import DateutilVerif.Proofs.RenderHmsFrac
 import DateutilVerif.Proofs.RenderCtimeOff
@@ -450,6 +451,15 @@ def TemplateThm (id : String) : Prop :=
   else if id = "compact_date" then
     (∀ (cls : Char → CClass) [AsciiOK cls] (yf : Bool) (year century : Int) (o : Opts) (tznames : List Token) (tzi : TzInfos) (ho : StrictOpts o tzi) (hdf : o.dayfirst.getD false = false) (t dflt : DT) (ht : t.Valid) (hdv : dflt.Valid),
       parse cls (Info.default false yf year century) o tznames tzi dflt (str_compact_date t []) = .ok { dt := { t with hh := dflt.hh, mm := dflt.mm, ss := dflt.ss, us := dflt.us }, tz := .naive, tokens := none })
+  else if id = "eu_dot" then
+    (∀ (cls : Char → CClass) [AsciiOK cls] (yf : Bool) (year century : Int) (o : Opts) (tznames : List Token) (tzi : TzInfos) (ho : StrictOpts o tzi) (hdf : o.dayfirst.getD false = true) (hyf : o.yearfirst.getD yf = false) (t dflt : DT) (ht : t.Valid) (hdv : dflt.Valid) (off : Off) (hoff : off.Dom),
+      parse cls (Info.default false yf year century) o tznames tzi dflt (str_eu_dot t off.render) = .ok { dt := { t with ss := dflt.ss, us := dflt.us }, tz := offZone o tznames off, tokens := none })
+  else if id = "yf_dot_date" then
+    (∀ (cls : Char → CClass) [AsciiOK cls] (yf : Bool) (year century : Int) (o : Opts) (tznames : List Token) (tzi : TzInfos) (ho : StrictOpts o tzi) (hdf : o.dayfirst.getD false = false) (t dflt : DT) (ht : t.Valid) (hdv : dflt.Valid),
+      parse cls (Info.default false yf year century) o tznames tzi dflt (str_yf_dot_date t []) = .ok { dt := { t with hh := dflt.hh, mm := dflt.mm, ss := dflt.ss, us := dflt.us }, tz := .naive, tokens := none })
+  else if id = "long_ampm" then
+    (∀ (cls : Char → CClass) [AsciiOK cls] (yf : Bool) (year century : Int) (o : Opts) (tznames : List Token) (tzi : TzInfos) (ho : StrictOpts o tzi)  (t dflt : DT) (ht : t.Valid) (hdv : dflt.Valid) (hy : 100 ≤ t.y) (off : Off) (hoff : off.Dom) (hsp : off.Spaced),
+      parse cls (Info.default false yf year century) o tznames tzi dflt (str_long_ampm t off.render) = .ok { dt := { t with us := 0 }, tz := offZone o tznames off, tokens := none })
   else if id = "iso_T_s" then
     (∀ (cls : Char → CClass) [AsciiOK cls] (yf : Bool) (year century : Int) (o : Opts) (tznames : List Token) (tzi : TzInfos) (ho : PlainOpts o tzi) (t dflt : DT) (ht : t.Valid) (hdv : dflt.Valid) (off : Off) (hoff : off.Dom),
       parse cls (Info.default false yf year century) o tznames tzi dflt (renderIsoX 'T' .hms t off) =
@@ -742,7 +752,7 @@ set_option maxHeartbeats 4000000 in
 theorem proved_templates_have_theorems : ∀ p ∈ provedTemplates, TemplateThm p.1 := by
   intro p hp
   simp only [provedTemplates, List.mem_cons, List.mem_nil_iff, or_false] at hp
-  rcases hp with rfl | rfl | rfl | rfl | rfl | rfl | rfl | rfl | rfl | rfl | rfl | rfl | rfl | rfl | rfl | rfl | rfl | rfl | rfl | rfl | rfl | rfl | rfl | rfl | rfl | rfl | rfl | rfl | rfl | rfl | rfl | rfl | rfl | rfl | rfl | rfl | rfl | rfl | rfl | rfl | rfl | rfl | rfl | rfl | rfl | rfl | rfl | rfl | rfl | rfl | rfl | rfl | rfl | rfl | rfl | rfl | rfl | rfl | rfl | rfl | rfl | rfl | rfl | rfl | rfl | rfl | rfl | rfl | rfl | rfl | rfl | rfl | rfl | rfl | rfl | rfl | rfl | rfl | rfl | rfl | rfl | rfl | rfl | rfl | rfl | rfl | rfl | rfl | rfl | rfl
+  rcases hp with rfl | rfl | rfl | rfl | rfl | rfl | rfl | rfl | rfl | rfl | rfl | rfl | rfl | rfl | rfl | rfl | rfl | rfl | rfl | rfl | rfl | rfl | rfl | rfl | rfl | rfl | rfl | rfl | rfl | rfl | rfl | rfl | rfl | rfl | rfl | rfl | rfl | rfl | rfl | rfl | rfl | rfl | rfl | rfl | rfl | rfl | rfl | rfl | rfl | rfl | rfl | rfl | rfl | rfl | rfl | rfl | rfl | rfl | rfl | rfl | rfl | rfl | rfl | rfl | rfl | rfl | rfl | rfl | rfl | rfl | rfl | rfl | rfl | rfl | rfl | rfl | rfl | rfl | rfl | rfl | rfl | rfl | rfl | rfl | rfl | rfl | rfl | rfl | rfl | rfl | rfl | rfl | rfl
   · show TemplateThm "us_slash"
     simp only [TemplateThm]
     exact fun cls _ yf year century o tznames tzi ho hdf hyf t dflt ht hdv off hoff => tpl_us_slash cls yf year century o tznames tzi ho hdf hyf t dflt ht hdv off hoff
@@ -809,6 +819,15 @@ theorem proved_templates_have_theorems : ∀ p ∈ provedTemplates, TemplateThm 
   · show TemplateThm "compact_date"
     simp only [TemplateThm]
     exact fun cls _ yf year century o tznames tzi ho hdf t dflt ht hdv => tpl_compact_date cls yf year century o tznames tzi ho hdf t dflt ht hdv
+  · show TemplateThm "eu_dot"
+    simp only [TemplateThm]
+    exact fun cls _ yf year century o tznames tzi ho hdf hyf t dflt ht hdv off hoff => tpl_eu_dot cls yf year century o tznames tzi ho hdf hyf t dflt ht hdv off hoff
+  · show TemplateThm "yf_dot_date"
+    simp only [TemplateThm]
+    exact fun cls _ yf year century o tznames tzi ho hdf t dflt ht hdv => tpl_yf_dot_date cls yf year century o tznames tzi ho hdf t dflt ht hdv
+  · show TemplateThm "long_ampm"
+    simp only [TemplateThm]
+    exact fun cls _ yf year century o tznames tzi ho  t dflt ht hdv hy off hoff hsp => tpl_long_ampm cls yf year century o tznames tzi ho  t dflt ht hdv hy off hoff hsp
   · show TemplateThm "iso_T_s"
     simp only [TemplateThm]
     exact fun cls _ yf year century o tznames tzi ho t dflt ht hdv off hoff =>
